@@ -486,6 +486,7 @@ class FiltersSet:
                 node,
                 (
                     commands.HeaderCommand,
+                    commands.AddressCommand,
                     commands.SizeCommand,
                     commands.ExistsCommand,
                     commands.BodyCommand,
@@ -495,7 +496,9 @@ class FiltersSet:
             ):
                 args = node.args_as_tuple()
                 if negate:
-                    if node.name in ["header", "envelope"]:
+                    if node.name == "address":
+                        args = (args[0], ":not{}".format(args[1][1:])) + args[2:]
+                    elif node.name in ["header", "envelope"]:
                         nargs = (args[0], ":not{}".format(args[1][1:]))
                         if len(args) > 3:
                             nargs += args[2:]
